@@ -58,3 +58,6 @@ Check (C08_histories : forall p v it o ops s', bytes_ok p -> parse p = Ok v -> i
   (o = H2Recompute \/ exists sec rx, o = H2Insert sec rx) -> Forall hop2_ok (o :: ops) ->
   run_hops2 (o :: ops) (v, it) = (s', Ok tt) -> dinv (fst s') /\ snd s' = it).
 Print Assumptions C08_histories.
+Check (C08_histories_total : forall ops v it, dinv v -> is_response (pp_packet v) -> Forall hop2_ok ops ->
+  exists s', run_hops2_tol ops (v, it) = (s', Ok tt) /\ dinv (fst s') /\ snd s' = it /\ is_response (pp_packet (fst s'))).
+Print Assumptions C08_histories_total.
